@@ -448,6 +448,14 @@ def r7_locators(c, facts):
         c.ok(R, {'Locator::join': 'delegates to url::Url::join'})
     else:
         c.bad(R, 'join-not-url-join:%s' % ','.join(other_url), 'Locator::join no longer resolves the relative reference with url::Url::join (uses %s): `..`, `.` or absolute references resolve to a different file than before, so existing imports are rejected or two spellings of one file become two modules' % (other_url or names))
+    lp = c.anchor(R, 'oal_client::locator_path')
+    lidx = MF.defs_index(lp)
+    rnames = {P.strip(x).split('::')[-1] for x, _, _ in MF.slice_back(lp, 0, lidx)['calls']}
+    raw = sorted(rnames & {'path', 'as_str', 'to_string', 'path_segments', 'from'} - {'as_str'} if 'to_file_path' not in rnames else set())
+    if 'to_file_path' in rnames:
+        c.ok(R, {'locator_path': 'file: URL -> path with url::Url::to_file_path (percent-decoding, platform rules)'})
+    else:
+        c.bad(R, 'locator_path:not-to_file_path:%s' % ','.join(raw), 'locator_path no longer converts the URL with Url::to_file_path (uses %s): a path with a space, a non-ASCII letter, `#` or `%%` names another file than the one written in the program or on the command line' % (raw or sorted(rnames)))
     n = 0
     for q, l in sorted(facts.by_qname.items()):
         if not re.search(r'as (oal_compiler::)?module::Loader<.*>::is_valid$', q):
